@@ -178,7 +178,9 @@ func (c11) Exec(p *Plan, dir string) *Result {
 				w.Sim.RunSteps(uint64(w.Sim.SchedRand().Intn(60)))
 			}
 			if stalled != nil {
-				w.Sim.Settle()
+				// (no virtual time passes while they are stalled: a goroutine that gets no CPU for
+				// longer than the ten-second write deadline it has just set is a different fault)
+				w.Sim.Run(nil, false)
 				w.Sim.Release(stalled)
 			}
 			i += n
